@@ -116,7 +116,7 @@ func Family(full bool) []FamDoc {
 	}
 	// (2) containers x numbering x extras on a 3-page nested document
 	for _, container := range []string{"classic", "xrefstream", "objstream"} {
-		for _, numbering := range []string{"dense", "gaps", "dangling-free-ref"} {
+		for _, numbering := range []string{"dense", "gaps", "dangling-free-ref", "dangling-free-ref-gen1"} {
 			for _, extra := range []string{"none", "attachment", "outline", "filters", "no-info", "hazard-names"} {
 				if !full && !(extra == "none" || (container == "classic" && numbering == "dense") || (extra == "hazard-names" && numbering == "dense") || (container == "objstream" && numbering == "gaps" && extra == "filters")) {
 					continue
@@ -126,8 +126,12 @@ func Family(full bool) []FamDoc {
 				case "gaps":
 					d.SkipNumbers(3)
 					d.Add("<</Unused true>>")
-				case "dangling-free-ref":
-					// two free objects; a live object references the second one
+				case "dangling-free-ref", "dangling-free-ref-gen1":
+					// two free objects; a live object references the second one (generation 0 reference); in the
+					// gen1 variant the free entries carry generation 1, as after a real deletion
+					if numbering == "dangling-free-ref-gen1" {
+						d.FreeGen = 1
+					}
 					free1 := d.Reserve()
 					free2 := d.Reserve()
 					_ = free1
